@@ -474,32 +474,33 @@ Definition smallest_factor_ge (n m : Z) : result Z :=
 
 Fixpoint roll_constant_waveforms (min_quanta quantum : Z) (sr : Q) (t : tree) : result tree :=
   match t with
-  | Node rep None _ ch =>
+  | Node rep (Some x) _ [] =>
+      if quantum =? 0 then Err EZeroDiv
+      else
+        (* waveform_quanta = duration * sample_rate / quantum must be a whole number (repaired in /repo 239f058; the
+           code used floor division and changed the duration of waveforms that are not a multiple of the quantum) *)
+        let wqq := (wf_dur x * sr / inject_Z quantum)%Q in
+        if negb (q_is_int wqq) then Ok (Node rep (Some x) [] [])
+        else
+        let wq := q_int wqq in
+        if wq <? min_quanta * 2 then Ok (Node rep (Some x) [] [])
+        else match cvd x with
+             | None => Ok (Node rep (Some x) [] [])
+             | Some v =>
+                 bind (smallest_factor_ge wq min_quanta)
+                      (fun nq => if nq =? wq then Ok (Node rep (Some x) [] [])
+                                 else Ok (Node (rep * (wq / nq))
+                                               (Some (WConst (Qred (inject_Z quantum * inject_Z nq / sr)) v)) [] []))
+             end
+  | Node rep w _ ch =>
+      (* no waveform, or a loop with children (only leaves are rolled; repaired in /repo 36dc22a) *)
       bind ((fix go (l : list tree) : result (list tree) :=
                match l with
                | [] => Ok []
                | c :: r => bind (roll_constant_waveforms min_quanta quantum sr c)
                                 (fun c' => bind (go r) (fun rs => Ok (c' :: rs)))
                end) ch)
-           (fun ch' => Ok (Node rep None [] ch'))
-  | Node rep (Some x) _ ch =>
-      if quantum =? 0 then Err EZeroDiv
-      else
-        (* waveform_quanta = duration * sample_rate / quantum must be a whole number (repaired in /repo 239f058; the
-           code used floor division and changed the duration of waveforms that are not a multiple of the quantum) *)
-        let wqq := (wf_dur x * sr / inject_Z quantum)%Q in
-        if negb (q_is_int wqq) then Ok (Node rep (Some x) [] ch)
-        else
-        let wq := q_int wqq in
-        if wq <? min_quanta * 2 then Ok (Node rep (Some x) [] ch)
-        else match cvd x with
-             | None => Ok (Node rep (Some x) [] ch)
-             | Some v =>
-                 bind (smallest_factor_ge wq min_quanta)
-                      (fun nq => if nq =? wq then Ok (Node rep (Some x) [] ch)
-                                 else Ok (Node (rep * (wq / nq))
-                                               (Some (WConst (Qred (inject_Z quantum * inject_Z nq / sr)) v)) [] ch))
-             end
+           (fun ch' => Ok (Node rep w [] ch'))
   end.
 
 (* ------------------------------------------------------------------------------------------------------------------ *)
